@@ -144,6 +144,15 @@ def edits(rng, j, tag):
     out.append(E('steps-empty', lambda k: k['proof_parameters']['stark']['fri'].__setitem__('fri_step_list', []), 'err'))
     out.append(E('steps-huge', lambda k: k['proof_parameters']['stark']['fri'].__setitem__('fri_step_list', [0, 40, 40]), 'err'))
     out.append(E('steps-sum-too-big', lambda k: k['proof_parameters']['stark']['fri'].__setitem__('fri_step_list', [0, 4, 4, 4, 4, 4, 4, 4]), 'err'))
+    # the SAME number of layers (so that every annotation still has its consumer) with a step that folds the domain below size 1: the derived
+    # layer sizes cannot be computed — an error, never a shorter / partially filled FRI configuration
+    def step_over(k, pos, extra):
+        fri = k['proof_parameters']['stark']['fri']; st = list(fri['fri_step_list'])
+        logn = k['public_input']['n_steps'].bit_length() - 1 + 4 + k['proof_parameters']['stark']['log_n_cosets']     # (upper bound of) log2 of the evaluation domain
+        st[pos] = st[pos] + max(0, logn - sum(st)) + extra; fri['fri_step_list'] = st
+    for pos in (0, 1, -1):
+        for extra in (1, 2, 10):
+            out.append(E(f'steps-overflow-pos{pos}+{extra}', lambda k, pos=pos, extra=extra: step_over(k, pos, extra), 'err'))
     out.append(E('last-layer-bound=3', lambda k: k['proof_parameters']['stark']['fri'].__setitem__('last_layer_degree_bound', 3), 'err'))
     out.append(E('layout-unknown', lambda k: k['public_input'].__setitem__('layout', 'nonsense'), 'err'))
     out.append(E('annotations-empty', lambda k: k.__setitem__('annotations', []), 'err'))
